@@ -29,7 +29,10 @@ EXPLANATION = (
   "pick_* upper-cases the avoid set first; (R3) pick_col_ident_list adds each pick, upper-cased, "
   "to the avoid set before the next pick and returns exactly the picks; (R4) the call sites in "
   "the engine pass avoid sets that contain 'id', the table's and its sibling summary tables' "
-  "columns, and record each pick of a batch before the next one. Assumption: the keyword list is "
+  "columns, and record each pick of a batch before the next one. The interpreter follows if/else in "
+  "either polarity, and/or conditions, break/continue and early returns; guards of the "
+  "returned candidates and the call-site clauses are read from the CFG and through the locals "
+  "that name an operand. Assumption: the keyword list is "
   "the analysing interpreter's keyword.kwlist. Not decided: that an already valid and unused "
   "name is kept as it is; termination of the suffix search.")
 
@@ -628,6 +631,13 @@ class Interp(object):
     if d == "str" and len(e.args) == 1:
       self.ev(e.args[0], env)
       return vstr(Str.top())
+    if d in ("set", "frozenset", "list", "tuple", "sorted", "dict") and len(e.args) <= 1 and \
+        not e.keywords:
+      # a container of whatever the argument yields: opaque, like the comprehension displays
+      if e.args and not isinstance(e.args[0], (ast.GeneratorExp, ast.ListComp, ast.SetComp,
+                                               ast.DictComp)):
+        self.ev(e.args[0], env)
+      return OPAQUE
     if d == "unicodedata.normalize" and len(e.args) == 2 and \
         self.mod.imports.get("unicodedata") == ("module", "unicodedata"):
       v = self.ev(e.args[1], env)
@@ -845,13 +855,9 @@ def _not_in_avoid(v, cand, avoid, at, shape, facts):
 
 
 def _arms_of(v, value, at, facts):
-  """[(candidate expr, facts)] of a returned value: conditional expressions are split, locals
-  that merely name the value are followed."""
-  e, at2 = v.resolve(value, at=at)
-  if isinstance(e, ast.IfExp):
-    return _arms_of(v, e.body, at2, facts | v.test_facts(e.test, True, at=at2)) + \
-        _arms_of(v, e.orelse, at2, facts | v.test_facts(e.test, False, at=at2))
-  return [(e, at2, facts)]
+  """[(candidate expr, node, facts)] of a returned value: conditional expressions are split,
+  locals that merely name the value are followed, also when they are bound on several paths."""
+  return v.alternatives(value, at=at, facts=facts)
 
 
 def r2_avoid(run, w, ip):
